@@ -90,7 +90,7 @@ def native(fn, values):
 
 
 STRINGS = ['', 'a', 'ab', 'abc', 'a/b', '/a/b/', 'x.py', '..py', '.', '..', 'a.b.c', 'İx', 'Aa_', '\n', 'a\r\n',
-           'foo-stubs', '-stubs', '__init__', 'aXbXc', 'XX', ' a ', 'a  ', '//a', 'ß', '\U0001F600x']
+           'foo-stubs', '-stubs', '__init__', '\u2003a\u3000', 'aXbXc', 'XX', ' a ', 'a  ', '//a', 'ß', '\U0001F600x']
 INTS = [-3, -1, 0, 1, 2, 3, 5]
 
 CASES = []
